@@ -1,6 +1,1746 @@
-//! Property C13 (stub with a probe)
-use crate::report::Report;
+//! Property C13 — string and number literals survive generation exactly.
+//!
+//! Correspondence: `verif_hooks::{write_string, write_interpolated_string_segment, write_number}`
+//! and the three public generators against the Lean model (`c13.str`, `c13.seg`, `c13.num`),
+//! byte-exact. Oracle: the REAL output is decoded by the Lean reference decoders
+//! (`Spec.decodeLiteral` Luau / Lua 5.1, `Spec.decodeInterpSegment`, `Spec.numberValue`) and
+//! must give back the input bytes / the same double bit for bit.
+use crate::model::{f64_wire, hex, unhex, wire_f64, Model};
+use crate::report::{known_findings, Report, Violation};
+use crate::rng::Rng;
+use darklua_core::generator::{
+    DenseLuaGenerator, LuaGenerator, ReadableLuaGenerator, TokenBasedLuaGenerator,
+};
+use darklua_core::nodes::{
+    BinaryExpression, BinaryOperator, Block, DecimalNumber, Expression, FieldExpression,
+    FunctionCall, Identifier, IndexExpression, InterpolatedStringExpression, NumberExpression,
+    Prefix, ReturnStatement, StringExpression, StringSegment, TableEntry, TableExpression,
+    TableIndexEntry,
+};
+use darklua_core::verif_hooks as hooks;
+use darklua_core::Parser;
+use serde_json::{json, Value};
+use std::panic::{catch_unwind, AssertUnwindSafe};
 
-pub fn run(report: &mut Report, _replay: Option<&str>) {
-    report.notes.push(format!("probe: {:?}", darklua_core::verif_hooks::write_string(b"")));
+const THREADS: usize = 16;
+
+fn guarded<T>(f: impl FnOnce() -> T) -> Result<T, String> {
+    catch_unwind(AssertUnwindSafe(f)).map_err(|e| {
+        if let Some(s) = e.downcast_ref::<String>() {
+            s.clone()
+        } else if let Some(s) = e.downcast_ref::<&str>() {
+            (*s).to_owned()
+        } else {
+            "panic".to_owned()
+        }
+    })
+}
+
+/// run `work` over `items` on up to THREADS threads, one Lean driver per thread, order kept
+fn par_chunks<I: Sync, O: Send>(
+    items: &[I],
+    work: impl Fn(&mut Model, &[I]) -> Vec<O> + Sync,
+) -> Vec<O> {
+    if items.is_empty() {
+        return Vec::new();
+    }
+    let n = THREADS.min(items.len().div_ceil(64)).max(1);
+    let size = items.len().div_ceil(n);
+    let mut results: Vec<Vec<O>> = Vec::new();
+    std::thread::scope(|scope| {
+        let handles: Vec<_> = items
+            .chunks(size)
+            .map(|chunk| {
+                let work = &work;
+                scope.spawn(move || {
+                    let mut model = Model::spawn();
+                    let mut out = Vec::with_capacity(chunk.len());
+                    for sub in chunk.chunks(4096) {
+                        out.extend(work(&mut model, sub));
+                    }
+                    out
+                })
+            })
+            .collect();
+        for h in handles {
+            results.push(h.join().expect("worker thread panicked"));
+        }
+    });
+    results.into_iter().flatten().collect()
+}
+
+// ------------------------------------------------------------------------------------------
+// strings
+// ------------------------------------------------------------------------------------------
+
+#[derive(Clone)]
+struct StrCase {
+    family: &'static str,
+    v: Vec<u8>,
+}
+
+struct StrOutcome {
+    real: Result<Vec<u8>, String>,
+    /// outputs of the three generators that differ from the hook's output
+    gen_diff: Vec<(String, String)>,
+    model: String,
+    dec_luau: String,
+    dec_51: String,
+    straddles: bool,
+    safe51: bool,
+    longform: bool,
+}
+
+fn real_write_string(v: &[u8]) -> Result<Vec<u8>, String> {
+    guarded(|| hooks::write_string(v).into_bytes())
+}
+
+fn generator_outputs(expr: &Expression) -> Vec<(String, Result<String, String>)> {
+    vec![
+        (
+            "dense".to_owned(),
+            guarded(|| {
+                let mut g = DenseLuaGenerator::new(80);
+                g.write_expression(expr);
+                g.into_string()
+            }),
+        ),
+        (
+            "readable".to_owned(),
+            guarded(|| {
+                let mut g = ReadableLuaGenerator::new(80);
+                g.write_expression(expr);
+                g.into_string()
+            }),
+        ),
+        (
+            "token_based".to_owned(),
+            guarded(|| {
+                let mut g = TokenBasedLuaGenerator::new("");
+                g.write_expression(expr);
+                g.into_string()
+            }),
+        ),
+    ]
+}
+
+fn run_str_cases(cases: &[StrCase], with_generators: bool) -> Vec<StrOutcome> {
+    par_chunks(cases, |model, chunk| {
+        let reals: Vec<Result<Vec<u8>, String>> =
+            chunk.iter().map(|c| real_write_string(&c.v)).collect();
+        let lines: Vec<String> = chunk
+            .iter()
+            .zip(&reals)
+            .map(|(c, r)| {
+                format!(
+                    "c13.str {} {}",
+                    hex(&c.v),
+                    hex(r.as_deref().unwrap_or(&[]))
+                )
+            })
+            .collect();
+        let answers = model.ask_batch(&lines);
+        chunk
+            .iter()
+            .zip(reals)
+            .zip(answers)
+            .map(|((c, real), answer)| {
+                let parts: Vec<&str> = answer.split(' ').collect();
+                let get = |i: usize| parts.get(i).copied().unwrap_or("?").to_owned();
+                let mut gen_diff = Vec::new();
+                if with_generators {
+                    if let Ok(r) = &real {
+                        let expected = String::from_utf8_lossy(r).into_owned();
+                        let expr: Expression = StringExpression::from_value(c.v.clone()).into();
+                        for (name, out) in generator_outputs(&expr) {
+                            match out {
+                                // a generator may break the line before a token that does not
+                                // fit its column span: leading blanks are not part of the literal
+                                Ok(s) if s.trim_start_matches([' ', '\n']) == expected => {}
+                                Ok(s) => gen_diff.push((name, s)),
+                                Err(e) => gen_diff.push((name, format!("panic: {}", e))),
+                            }
+                        }
+                    }
+                }
+                StrOutcome {
+                    real,
+                    gen_diff,
+                    model: get(0),
+                    dec_luau: get(1),
+                    dec_51: get(2),
+                    straddles: get(3) == "true",
+                    safe51: get(4) == "true",
+                    longform: get(5) == "true",
+                }
+            })
+            .collect()
+    })
+}
+
+fn str_input(c: &StrCase) -> Value {
+    json!({"kind": "string", "family": c.family, "bytes_hex": hex(&c.v),
+           "ascii": String::from_utf8_lossy(&c.v)})
+}
+
+/// does the property's oracle fail on the real code for `v` (outside the recorded F14 region)?
+fn str_oracle_fails(model: &mut Model, v: &[u8]) -> Option<String> {
+    let real = match real_write_string(v) {
+        Ok(r) => r,
+        Err(e) => return Some(format!("write_string panicked: {}", e)),
+    };
+    let answer = model.ask(&format!("c13.str {} {}", hex(v), hex(&real)));
+    let parts: Vec<&str> = answer.split(' ').collect();
+    if parts.len() < 6 {
+        return None;
+    }
+    let expected = format!("some:{}", hex(v));
+    if parts[1] != expected && parts[3] != "true" {
+        return Some(format!(
+            "write_string gives {:?}, which Luau reads as {}",
+            String::from_utf8_lossy(&real),
+            parts[1]
+        ));
+    }
+    None
+}
+
+/// budgeted search around `v` for an input on which the oracle fails on the real code
+fn search_str_failure(v: &[u8], rng: &mut Rng) -> Option<(Vec<u8>, String)> {
+    let mut model = Model::spawn();
+    let interesting: &[u8] = b"]=[\n\\'\"0 9x\x00\x01\x1b\x7f\x80\xc3\xa9\xff";
+    let mut candidates: Vec<Vec<u8>> = vec![v.to_vec()];
+    for i in 0..v.len().min(80) {
+        let mut w = v.to_vec();
+        w.remove(i);
+        candidates.push(w);
+        for &b in interesting.iter().take(8) {
+            let mut w = v.to_vec();
+            w[i] = b;
+            candidates.push(w);
+        }
+    }
+    for &b in interesting {
+        let mut w = v.to_vec();
+        w.push(b);
+        candidates.push(w);
+        let mut w = v.to_vec();
+        w.insert(0, b);
+        candidates.push(w);
+    }
+    for _ in 0..1500 {
+        let mut w = v.to_vec();
+        for _ in 0..(1 + rng.below(3)) {
+            match rng.below(3) {
+                0 if !w.is_empty() => {
+                    let i = rng.below(w.len());
+                    w[i] = *rng.pick(interesting);
+                }
+                1 => {
+                    let i = rng.below(w.len() + 1);
+                    w.insert(i, *rng.pick(interesting));
+                }
+                _ if !w.is_empty() => {
+                    let i = rng.below(w.len());
+                    w.remove(i);
+                }
+                _ => {}
+            }
+        }
+        candidates.push(w);
+    }
+    for w in candidates {
+        if let Some(what) = str_oracle_fails(&mut model, &w) {
+            return Some((w, what));
+        }
+    }
+    None
+}
+
+fn evaluate_str(report: &mut Report, cases: &[StrCase], outcomes: &[StrOutcome], rng: &mut Rng) {
+    for (c, o) in cases.iter().zip(outcomes) {
+        let expected = format!("some:{}", hex(&c.v));
+        let real = match &o.real {
+            Ok(r) => r,
+            Err(e) => {
+                report.case(Some(&c.v));
+                report.violation(Violation {
+                    kind: "oracle".into(),
+                    check: "write_string-panics".into(),
+                    what: format!("write_string panicked: {}", e),
+                    input: str_input(c),
+                    failing_input_found: true,
+                });
+                continue;
+            }
+        };
+        // non-trivial: anything but `'` + the bytes unchanged + `'`
+        let mut plain = vec![b'\''];
+        plain.extend_from_slice(&c.v);
+        plain.push(b'\'');
+        let nontrivial = *real != plain;
+        report.case(if nontrivial { Some(("s", &c.v)) } else { None });
+        report.hist("string-family", c.family);
+        let form = if real.first() == Some(&b'[') {
+            "long-bracket"
+        } else if real.first() == Some(&b'"') {
+            "double-quoted"
+        } else {
+            "single-quoted"
+        };
+        report.hist("string-form", form);
+        if o.longform != (form == "long-bracket") {
+            report.violation(Violation {
+                kind: "correspondence".into(),
+                check: "string-form".into(),
+                what: format!("model long-bracket={} but real output is {}", o.longform, form),
+                input: str_input(c),
+                failing_input_found: false,
+            });
+        }
+        let oracle_luau_ok = o.dec_luau == expected;
+        let oracle_51_ok = o.dec_51 == expected;
+        // ---- oracle (Luau)
+        if !oracle_luau_ok {
+            if o.straddles {
+                report.hist("string-oracle", "fails-inside-F14-region(recorded)");
+            } else {
+                report.violation(Violation {
+                    kind: "oracle".into(),
+                    check: "string-roundtrip-luau".into(),
+                    what: format!(
+                        "write_string gives {:?}; Luau reads that as {} instead of the value",
+                        String::from_utf8_lossy(real),
+                        o.dec_luau
+                    ),
+                    input: str_input(c),
+                    failing_input_found: true,
+                });
+            }
+        } else {
+            report.hist("string-oracle", "ok");
+        }
+        // ---- oracle (Lua 5.1), demanded only when no \u{} is needed
+        if !oracle_51_ok {
+            if o.safe51 {
+                report.violation(Violation {
+                    kind: "oracle".into(),
+                    check: "string-roundtrip-lua51".into(),
+                    what: format!(
+                        "write_string gives {:?}; Lua 5.1 reads that as {} instead of the value",
+                        String::from_utf8_lossy(real),
+                        o.dec_51
+                    ),
+                    input: str_input(c),
+                    failing_input_found: true,
+                });
+            } else {
+                report.hist("string-oracle-lua51", "fails-outside-lua51Safe(\\u / F14 / F14b)");
+            }
+        } else {
+            report.hist("string-oracle-lua51", "ok");
+        }
+        // ---- correspondence
+        if o.model != hex(real) {
+            // budgeted: a systematic break shows up on thousands of inputs; search around the
+            // first few only
+            let searches = report.counters.get("correspondence_searches").copied().unwrap_or(0);
+            let found = if (oracle_luau_ok || o.straddles) && searches < 4 {
+                report.count("correspondence_searches", 1);
+                search_str_failure(&c.v, rng)
+            } else {
+                None // the oracle violation on this very input is already reported
+            };
+            match found {
+                Some((w, what)) => report.violation(Violation {
+                    kind: "oracle".into(),
+                    check: "string-roundtrip-luau".into(),
+                    what,
+                    input: json!({"kind": "string", "family": "search", "bytes_hex": hex(&w),
+                        "ascii": String::from_utf8_lossy(&w), "found_from": hex(&c.v)}),
+                    failing_input_found: true,
+                }),
+                None if oracle_luau_ok || o.straddles => report.violation(Violation {
+                    kind: "correspondence".into(),
+                    check: "write_string".into(),
+                    what: format!(
+                        "model {:?} != real {:?}",
+                        unhex(&o.model).map(|b| String::from_utf8_lossy(&b).into_owned()),
+                        String::from_utf8_lossy(real)
+                    ),
+                    input: str_input(c),
+                    failing_input_found: false,
+                }),
+                None => {}
+            }
+        }
+        for (name, out) in &o.gen_diff {
+            report.violation(Violation {
+                kind: "correspondence".into(),
+                check: format!("generator-{}", name),
+                what: format!(
+                    "{} generator writes {:?}, write_string gives {:?}",
+                    name,
+                    out,
+                    String::from_utf8_lossy(real)
+                ),
+                input: str_input(c),
+                failing_input_found: false,
+            });
+        }
+        if nontrivial && report.samples.len() < 6 && (c.v.len() > 2 || c.v.len() == 2 && c.v[0] < 32)
+        {
+            report.sample(json!({"value_hex": hex(&c.v), "written": String::from_utf8_lossy(real),
+                "luau": o.dec_luau, "lua51": o.dec_51}));
+        }
+    }
+}
+
+const REDUCED: &[u8] = &[
+    0, 7, 10, 13, 27, b' ', b'"', b'\'', b'0', b'9', b'a', b'\\', b']', b'[', b'=', 0x7f, 0x80,
+    0xc3, 0xa9, 0xe2, 0xff, b'`', b'{',
+];
+
+fn utf8(cp: u32) -> Vec<u8> {
+    char::from_u32(cp).unwrap().to_string().into_bytes()
+}
+
+fn exhaustive_small() -> Vec<StrCase> {
+    let mut out = vec![StrCase { family: "exhaustive<=2", v: vec![] }];
+    for a in 0..=255u8 {
+        out.push(StrCase { family: "exhaustive<=2", v: vec![a] });
+    }
+    for a in 0..=255u8 {
+        for b in 0..=255u8 {
+            out.push(StrCase { family: "exhaustive<=2", v: vec![a, b] });
+        }
+    }
+    out
+}
+
+fn reduced_three() -> Vec<StrCase> {
+    let mut out = Vec::new();
+    for &a in REDUCED {
+        for &b in REDUCED {
+            for &c in REDUCED {
+                out.push(StrCase { family: "reduced-alphabet-3", v: vec![a, b, c] });
+            }
+        }
+    }
+    out
+}
+
+fn structured_strings() -> Vec<StrCase> {
+    let mut out: Vec<StrCase> = Vec::new();
+    let mut push = |family: &'static str, v: Vec<u8>| out.push(StrCase { family, v });
+    // every byte followed by every digit, alone and inside a longer string, both paths
+    for a in 0..=255u8 {
+        for d in b'0'..=b'9' {
+            push("byte-then-digit", vec![b'k', a, d, b'z']);
+            push("byte-then-digit", vec![0xff, a, d]); // invalid UTF-8: byte path
+        }
+    }
+    // multi-byte chars; chars whose low byte is an ASCII digit (the `c as u8` truncation)
+    let cps: Vec<u32> = vec![
+        0x80, 0xe9, 0x7ff, 0x800, 0xffff, 0xfffd, 0x10000, 0x10ffff, 0xd7ff, 0xe000, 0x130, 0x131,
+        0x139, 0x2030, 0x2039, 0x10030, 0x10ff39, 0x12f, 0x13a, 0x25c1,
+    ];
+    for &cp in &cps {
+        for lead in [0u8, 1, 27, 31, 127, b'a'] {
+            let mut v = vec![lead];
+            v.extend(utf8(cp));
+            push("utf8-after-control", v.clone());
+            v.push(b'7');
+            push("utf8-then-digit", v.clone());
+            v.insert(0, b'\'');
+            v.push(b'"');
+            push("utf8-both-quotes", v);
+        }
+        let mut v = utf8(cp);
+        v.extend(utf8(cp));
+        push("utf8-pair", v);
+    }
+    // invalid UTF-8 families
+    let invalid: Vec<Vec<u8>> = vec![
+        vec![0xc0, 0x80],
+        vec![0xc1, 0xbf],
+        vec![0xe0, 0x80, 0x80],
+        vec![0xe0, 0x9f, 0xbf],
+        vec![0xed, 0xa0, 0x80],
+        vec![0xed, 0xbf, 0xbf],
+        vec![0xf0, 0x80, 0x80, 0x80],
+        vec![0xf0, 0x8f, 0xbf, 0xbf],
+        vec![0xf4, 0x90, 0x80, 0x80],
+        vec![0xf5, 0x80, 0x80, 0x80],
+        vec![0xf8, 0x88, 0x80, 0x80, 0x80],
+        vec![0xc3],
+        vec![0xe2, 0x82],
+        vec![0xf0, 0x9f, 0x98],
+        vec![0x80],
+        vec![0xbf, 0xbf],
+        vec![0xfe],
+        vec![0xff],
+        vec![0xc3, 0x28],
+        vec![0xe2, 0x28, 0xa1],
+    ];
+    for inv in &invalid {
+        push("invalid-utf8", inv.clone());
+        for tail in [&b"1"[..], b"'", b"\"'", b"\n", b"\\", b"a\x001"] {
+            let mut v = inv.clone();
+            v.extend_from_slice(tail);
+            push("invalid-utf8", v.clone());
+            let mut w = b"ok \xc3\xa9 ".to_vec();
+            w.extend(v);
+            push("invalid-utf8", w);
+        }
+    }
+    // quotes and backslashes
+    for s in [
+        &b"'"[..], b"\"", b"'\"", b"\"'", b"''", b"\"\"", b"it's", b"say \"hi\"", b"'\"'\"",
+        b"\\", b"\\\\", b"\\'", b"\\\"", b"\\n", b"a\\", b"\\0", b"\\u{41}", b"\\x41", b"\\z  a",
+        b"\\\n", b"\r\n", b"\n\r", b"\0", b"\x000", b"a\0b",
+    ] {
+        push("quotes-backslashes", s.to_vec());
+        let mut long = s.to_vec();
+        long.extend(std::iter::repeat(b'x').take(70));
+        push("quotes-backslashes-long", long);
+    }
+    // long-bracket candidates: lengths around the thresholds × fillers × decorations
+    let decorations: Vec<(&[u8], &[u8])> = vec![
+        (b"", b""),
+        (b"\n", b""),
+        (b"\n\n", b""),
+        (b"", b"]"),
+        (b"", b"]]"),
+        (b"", b"]="),
+        (b"", b"]=="),
+        (b"", b"]==="),
+        (b"]]", b""),
+        (b"]]", b"]"),
+        (b"]]", b"]="), // F14 region
+        (b"]]]=]", b"]=="), // F14 region, level 2
+        (b"]]]=]", b"]="),
+        (b"]=]", b""),
+        (b"]=]", b"]"),
+        (b"]=]", b"]="),
+        (b"]==]]=]]]", b""),
+        (b"]==]]=]]]", b"]==="), // F14 region, level 3
+        (b"[[", b""),
+        (b"[=[", b"]"),
+        (b"[", b"["),
+        (b"=", b"="),
+        (b"[[nested]]", b""),
+        (b"\n]]", b"]="),
+        (b"", b"\n"),
+        (b"--", b""),
+        (b"", b"\\"),
+        (b"'", b"\""),
+    ];
+    for len in [18usize, 19, 20, 21, 22, 58, 59, 60, 61, 62, 70] {
+        for newlines in [0usize, 5, 6, 7] {
+            for (pre, post) in &decorations {
+                let mut v = pre.to_vec();
+                let fill = len.saturating_sub(pre.len() + post.len());
+                for i in 0..fill {
+                    // spread the newlines through the filler
+                    if newlines > 0 && i < newlines * 2 && i % 2 == 1 {
+                        v.push(b'\n');
+                    } else {
+                        v.push(b'x');
+                    }
+                }
+                v.extend_from_slice(post);
+                push("long-bracket-candidates", v.clone());
+                // one byte that forces the quoted form
+                for forced in [&b"\t"[..], b"\r", b"\x7f", b"\xc3\xa9", b"\xff", b"\0"] {
+                    let mut w = v.clone();
+                    let at = w.len() / 2;
+                    for (k, b) in forced.iter().enumerate() {
+                        w.insert(at + k, *b);
+                    }
+                    push("long-but-forced-quoted", w);
+                }
+            }
+        }
+    }
+    out
+}
+
+fn random_string(rng: &mut Rng) -> StrCase {
+    match rng.below(5) {
+        0 => {
+            // long-bracket material: brackets, equals, newlines, filler
+            let len = 18 + rng.below(70);
+            let alphabet: &[u8] = b"]]]===[[\nxx y";
+            let mut v: Vec<u8> = (0..len).map(|_| *rng.pick(alphabet)).collect();
+            if rng.chance(1, 2) {
+                // end in `]` `=`*  — the neighbourhood of F14
+                v.push(b']');
+                for _ in 0..rng.below(4) {
+                    v.push(b'=');
+                }
+            }
+            StrCase { family: "random-bracket-soup", v }
+        }
+        1 => {
+            let len = rng.below(12);
+            let v = (0..len).map(|_| (rng.next_u64() & 0xff) as u8).collect();
+            StrCase { family: "random-bytes", v }
+        }
+        2 => {
+            // valid UTF-8 text with escapes and digits
+            let n = 1 + rng.below(10);
+            let mut v = Vec::new();
+            for _ in 0..n {
+                match rng.below(6) {
+                    0 => v.push(b'0' + rng.below(10) as u8),
+                    1 => v.push(rng.below(32) as u8),
+                    2 => v.push(*rng.pick(b"'\"\\`{]")),
+                    3 => {
+                        let cp = match rng.below(4) {
+                            0 => 0x80 + rng.below(0x780) as u32,
+                            1 => 0x800 + rng.below(0xd000) as u32,
+                            2 => 0xe000 + rng.below(0x2000) as u32,
+                            _ => 0x10000 + rng.below(0x100000) as u32,
+                        };
+                        v.extend(utf8(cp));
+                    }
+                    4 => {
+                        // char whose low byte is a digit
+                        let cp = ((1 + rng.below(0x100)) as u32) << 8 | (0x30 + rng.below(10) as u32);
+                        if let Some(c) = char::from_u32(cp) {
+                            v.extend(c.to_string().into_bytes());
+                        }
+                    }
+                    _ => v.push(0x20 + rng.below(0x5f) as u8),
+                }
+            }
+            StrCase { family: "random-utf8-text", v }
+        }
+        3 => {
+            let len = rng.below(90);
+            let v = (0..len).map(|_| *rng.pick(REDUCED)).collect();
+            StrCase { family: "random-reduced", v }
+        }
+        _ => {
+            // printable text, sometimes many lines
+            let len = 15 + rng.below(80);
+            let nl = rng.below(9);
+            let mut v: Vec<u8> = (0..len).map(|_| 0x20 + rng.below(0x5f) as u8).collect();
+            for _ in 0..nl {
+                let i = rng.below(v.len());
+                v[i] = b'\n';
+            }
+            StrCase { family: "random-printable", v }
+        }
+    }
+}
+
+// ------------------------------------------------------------------------------------------
+// interpolated string segments
+// ------------------------------------------------------------------------------------------
+
+struct SegOutcome {
+    real: Result<Vec<u8>, String>,
+    gen_ok: bool,
+    model: String,
+    dec_tick: String,
+    dec_brace: String,
+}
+
+fn real_segment(v: &[u8]) -> Result<Vec<u8>, String> {
+    guarded(|| {
+        hooks::write_interpolated_string_segment(&StringSegment::from_value(v.to_vec())).into_bytes()
+    })
+}
+
+fn run_seg_cases(cases: &[StrCase]) -> Vec<SegOutcome> {
+    par_chunks(cases, |model, chunk| {
+        let reals: Vec<Result<Vec<u8>, String>> = chunk.iter().map(|c| real_segment(&c.v)).collect();
+        let lines: Vec<String> = chunk
+            .iter()
+            .zip(&reals)
+            .map(|(c, r)| format!("c13.seg {} {}", hex(&c.v), hex(r.as_deref().unwrap_or(&[]))))
+            .collect();
+        let answers = model.ask_batch(&lines);
+        chunk
+            .iter()
+            .zip(reals)
+            .zip(answers)
+            .map(|((c, real), answer)| {
+                let parts: Vec<&str> = answer.split(' ').collect();
+                let get = |i: usize| parts.get(i).copied().unwrap_or("?").to_owned();
+                // through the public generator: `…` around the segment (non-empty segments only)
+                let mut gen_ok = true;
+                if let (Ok(r), false) = (&real, c.v.is_empty()) {
+                    let expr: Expression = InterpolatedStringExpression::empty()
+                        .with_segment(StringSegment::from_value(c.v.clone()))
+                        .into();
+                    let mut expected = vec![b'`'];
+                    expected.extend_from_slice(r);
+                    expected.push(b'`');
+                    let out = guarded(|| {
+                        let mut g = DenseLuaGenerator::new(80);
+                        g.write_expression(&expr);
+                        g.into_string()
+                    });
+                    gen_ok = out
+                        .map(|s| s.trim_start_matches([' ', '\n']).as_bytes() == &expected[..])
+                        .unwrap_or(false);
+                }
+                SegOutcome { real, gen_ok, model: get(0), dec_tick: get(1), dec_brace: get(2) }
+            })
+            .collect()
+    })
+}
+
+fn evaluate_seg(report: &mut Report, cases: &[StrCase], outcomes: &[SegOutcome]) {
+    for (c, o) in cases.iter().zip(outcomes) {
+        let input = json!({"kind": "segment", "family": c.family, "bytes_hex": hex(&c.v)});
+        let real = match &o.real {
+            Ok(r) => r,
+            Err(e) => {
+                report.case(Some(("g", &c.v)));
+                report.violation(Violation {
+                    kind: "oracle".into(),
+                    check: "segment-panics".into(),
+                    what: format!("write_interpolated_string_segment panicked: {}", e),
+                    input,
+                    failing_input_found: true,
+                });
+                continue;
+            }
+        };
+        let nontrivial = *real != c.v;
+        report.case(if nontrivial { Some(("g", &c.v)) } else { None });
+        report.hist("segment-family", c.family);
+        let want_tick = format!("some:{}:x60", hex(&c.v));
+        let want_brace = format!("some:{}:x7b787d", hex(&c.v));
+        if o.dec_tick != want_tick || o.dec_brace != want_brace {
+            report.violation(Violation {
+                kind: "oracle".into(),
+                check: "segment-roundtrip".into(),
+                what: format!(
+                    "segment written as {:?}; Luau reads {} / {}",
+                    String::from_utf8_lossy(real),
+                    o.dec_tick,
+                    o.dec_brace
+                ),
+                input: input.clone(),
+                failing_input_found: true,
+            });
+        } else if o.model != hex(real) {
+            report.violation(Violation {
+                kind: "correspondence".into(),
+                check: "write_interpolated_string_segment".into(),
+                what: format!(
+                    "model {:?} != real {:?}",
+                    unhex(&o.model).map(|b| String::from_utf8_lossy(&b).into_owned()),
+                    String::from_utf8_lossy(real)
+                ),
+                input: input.clone(),
+                failing_input_found: false,
+            });
+        }
+        if !o.gen_ok {
+            report.violation(Violation {
+                kind: "correspondence".into(),
+                check: "generator-interpolated".into(),
+                what: "dense generator output is not ` + segment + `".into(),
+                input,
+                failing_input_found: false,
+            });
+        }
+    }
+}
+
+// ------------------------------------------------------------------------------------------
+// literals next to neighbouring tokens, through the three generators, parsed back
+// ------------------------------------------------------------------------------------------
+
+fn string_values(block: &Block) -> Option<Vec<Vec<u8>>> {
+    // the contexts below are all `return <expr>`; collect string values left to right
+    fn walk(e: &Expression, out: &mut Vec<Vec<u8>>) {
+        match e {
+            Expression::String(s) => out.push(s.get_value().to_vec()),
+            Expression::Binary(b) => {
+                walk(b.left(), out);
+                walk(b.right(), out);
+            }
+            Expression::Parenthese(p) => walk(p.inner_expression(), out),
+            Expression::Index(i) => {
+                walk_prefix(i.get_prefix(), out);
+                walk(i.get_index(), out);
+            }
+            Expression::Field(f) => walk_prefix(f.get_prefix(), out),
+            Expression::Call(c) => walk_call(c, out),
+            Expression::Table(t) => {
+                for entry in t.iter_entries() {
+                    match entry {
+                        TableEntry::Index(i) => {
+                            walk(i.get_key(), out);
+                            walk(i.get_value(), out);
+                        }
+                        TableEntry::Value(v) => walk(v, out),
+                        TableEntry::Field(f) => walk(f.get_value(), out),
+                    }
+                }
+            }
+            _ => {}
+        }
+    }
+    fn walk_prefix(p: &Prefix, out: &mut Vec<Vec<u8>>) {
+        match p {
+            Prefix::Parenthese(p) => walk(p.inner_expression(), out),
+            Prefix::Call(c) => walk_call(c, out),
+            Prefix::Index(i) => {
+                walk_prefix(i.get_prefix(), out);
+                walk(i.get_index(), out);
+            }
+            Prefix::Field(f) => walk_prefix(f.get_prefix(), out),
+            _ => {}
+        }
+    }
+    fn walk_call(c: &FunctionCall, out: &mut Vec<Vec<u8>>) {
+        walk_prefix(c.get_prefix(), out);
+        match c.get_arguments() {
+            darklua_core::nodes::Arguments::String(s) => out.push(s.get_value().to_vec()),
+            darklua_core::nodes::Arguments::Tuple(t) => {
+                for v in t.iter_values() {
+                    walk(v, out);
+                }
+            }
+            darklua_core::nodes::Arguments::Table(t) => {
+                walk(&Expression::Table(t.clone()), out)
+            }
+        }
+    }
+    let mut out = Vec::new();
+    match block.get_last_statement()? {
+        darklua_core::nodes::LastStatement::Return(r) => {
+            for e in r.iter_expressions() {
+                walk(e, &mut out);
+            }
+        }
+        _ => return None,
+    }
+    Some(out)
+}
+
+fn neighbour_contexts(v: &[u8]) -> Vec<(&'static str, Expression, usize)> {
+    let s = || StringExpression::from_value(v.to_vec());
+    let id = |n: &str| Expression::Identifier(Identifier::new(n));
+    vec![
+        ("concat-right", BinaryExpression::new(BinaryOperator::Concat, id("a"), s()).into(), 1),
+        ("concat-left", BinaryExpression::new(BinaryOperator::Concat, s(), id("a")).into(), 1),
+        ("concat-both", BinaryExpression::new(BinaryOperator::Concat, s(), s()).into(), 2),
+        (
+            "index",
+            IndexExpression::new(Prefix::from_name("t"), s()).into(),
+            1,
+        ),
+        (
+            "table-key",
+            TableExpression::new(vec![TableEntry::Index(Box::new(TableIndexEntry::new(s(), s())))]).into(),
+            2,
+        ),
+        (
+            "call-string-argument",
+            FunctionCall::from_name("f").with_argument(s()).into(),
+            1,
+        ),
+        (
+            "call-arguments-string",
+            FunctionCall::from_name("f")
+                .with_arguments(darklua_core::nodes::Arguments::String(s()))
+                .into(),
+            1,
+        ),
+        (
+            "field-of-parenthesised",
+            FieldExpression::new(
+                Prefix::Parenthese(Box::new(darklua_core::nodes::ParentheseExpression::new(s()))),
+                Identifier::new("len"),
+            )
+            .into(),
+            1,
+        ),
+        (
+            "less-than",
+            BinaryExpression::new(BinaryOperator::LowerThan, s(), s()).into(),
+            2,
+        ),
+    ]
+}
+
+fn check_neighbours(report: &mut Report, values: &[Vec<u8>]) {
+    // only values whose own literal is right (the F14 region is excluded by asking the model)
+    let mut model = Model::spawn();
+    let parser = Parser::default();
+    for v in values {
+        if model.ask(&format!("c13.straddles {}", hex(v))) != "false" {
+            report.hist("neighbour", "skipped(F14 region)");
+            continue;
+        }
+        for (ctx, expr, count) in neighbour_contexts(v) {
+            let block = Block::default().with_last_statement(ReturnStatement::one(expr));
+            let outputs: Vec<(&str, Result<String, String>)> = vec![
+                (
+                    "dense",
+                    guarded(|| {
+                        let mut g = DenseLuaGenerator::new(80);
+                        g.write_block(&block);
+                        g.into_string()
+                    }),
+                ),
+                (
+                    "readable",
+                    guarded(|| {
+                        let mut g = ReadableLuaGenerator::new(80);
+                        g.write_block(&block);
+                        g.into_string()
+                    }),
+                ),
+                (
+                    "token_based",
+                    guarded(|| {
+                        let mut g = TokenBasedLuaGenerator::new("");
+                        g.write_block(&block);
+                        g.into_string()
+                    }),
+                ),
+            ];
+            for (gname, out) in outputs {
+                report.case(Some(("n", ctx, gname, v)));
+                report.hist("neighbour", &format!("{}/{}", gname, ctx));
+                let input = json!({"kind": "neighbour", "context": ctx, "generator": gname,
+                    "bytes_hex": hex(v)});
+                let code = match out {
+                    Ok(c) => c,
+                    Err(e) => {
+                        report.violation(Violation {
+                            kind: "oracle".into(),
+                            check: "neighbour-panics".into(),
+                            what: format!("generator panicked: {}", e),
+                            input,
+                            failing_input_found: true,
+                        });
+                        continue;
+                    }
+                };
+                let parsed = guarded(|| parser.parse(&code));
+                let values_back = match parsed {
+                    Ok(Ok(b)) => string_values(&b),
+                    _ => None,
+                };
+                let want: Vec<Vec<u8>> = (0..count).map(|_| v.clone()).collect();
+                if values_back.as_ref() != Some(&want) {
+                    report.violation(Violation {
+                        kind: "oracle".into(),
+                        check: "neighbour-roundtrip".into(),
+                        what: format!(
+                            "{} writes {:?}; parsing it back gives string values {:?}",
+                            gname,
+                            code,
+                            values_back.map(|vs| vs
+                                .iter()
+                                .map(|b| String::from_utf8_lossy(b).into_owned())
+                                .collect::<Vec<_>>())
+                        ),
+                        input,
+                        failing_input_found: true,
+                    });
+                }
+            }
+        }
+    }
+}
+
+// ------------------------------------------------------------------------------------------
+// known findings
+// ------------------------------------------------------------------------------------------
+
+fn replay_known(report: &mut Report) {
+    let mut model = Model::spawn();
+    for k in known_findings("C13") {
+        let id = k["id"].as_str().unwrap_or("?").to_owned();
+        let w = &k["witness"];
+        match w["kind"].as_str() {
+            Some("string") => {
+                let Some(v) = w["bytes_hex"].as_str().and_then(unhex) else { continue };
+                let dialect = w["dialect"].as_str().unwrap_or("luau");
+                let Ok(real) = real_write_string(&v) else { continue };
+                let answer = model.ask(&format!("c13.decode {} {}", dialect, hex(&real)));
+                if answer != format!("some {}", hex(&v)) {
+                    report.known_finding(
+                        &id,
+                        &format!(
+                            "write_string({:?}) = {:?}, which {} reads as {}",
+                            String::from_utf8_lossy(&v),
+                            String::from_utf8_lossy(&real),
+                            dialect,
+                            answer
+                        ),
+                    );
+                }
+            }
+            _ => {}
+        }
+    }
+}
+
+fn replay_corpus(report: &mut Report, rng: &mut Rng) {
+    let dir = concat!(env!("CARGO_MANIFEST_DIR"), "/../corpus/C13");
+    let mut cases = Vec::new();
+    if let Ok(entries) = std::fs::read_dir(dir) {
+        let mut paths: Vec<_> = entries.flatten().map(|e| e.path()).collect();
+        paths.sort();
+        for p in paths {
+            if let Ok(text) = std::fs::read_to_string(&p) {
+                for line in text.lines() {
+                    let line = line.trim();
+                    if line.is_empty() || line.starts_with('#') {
+                        continue;
+                    }
+                    if let Some(v) = unhex(line) {
+                        cases.push(StrCase { family: "corpus", v });
+                    }
+                }
+            }
+        }
+    }
+    report.count("corpus_strings", cases.len() as u64);
+    let outcomes = run_str_cases(&cases, true);
+    evaluate_str(report, &cases, &outcomes, rng);
+}
+
+pub fn run(report: &mut Report, replay: Option<&str>) {
+    let mut rng = Rng::new(report.seed);
+    report.rule = "strings: every byte string of length <= 2, every 3-string over a 23-byte alphabet, \
+        structured families (byte x digit, multi-byte chars incl. low-byte-is-digit, invalid UTF-8, quotes, \
+        backslashes, long-bracket candidates around lengths 20/60 and 5-7 newlines with ]]/]=]/]= decorations), \
+        then seeded random; a case counts as non-trivial when the written text is not just the bytes between \
+        single quotes (strings), not the bytes unchanged (segments), or the literal is not a plain integer (numbers)"
+        .to_owned();
+
+    if let Some(path) = replay {
+        if let Ok(text) = std::fs::read_to_string(path) {
+            if let Ok(v) = serde_json::from_str::<Value>(&text) {
+                let input = &v["input"];
+                if let Some(bytes) = input["bytes_hex"].as_str().and_then(unhex) {
+                    let cases = vec![StrCase { family: "replay", v: bytes }];
+                    if input["kind"] == "segment" {
+                        let o = run_seg_cases(&cases);
+                        evaluate_seg(report, &cases, &o);
+                    } else {
+                        let o = run_str_cases(&cases, true);
+                        evaluate_str(report, &cases, &o, &mut rng);
+                        check_neighbours(report, &[cases[0].v.clone()]);
+                    }
+                    return;
+                }
+            }
+        }
+        report.notes.push("replay file not understood; running the normal tier".to_owned());
+    }
+
+    replay_known(report);
+    replay_corpus(report, &mut rng);
+
+    // ---- strings
+    let mut cases = exhaustive_small();
+    report.exhaustive.insert("byte strings of length <= 2 (write_string)".into(), true);
+    cases.extend(reduced_three());
+    report.exhaustive.insert("3-byte strings over the 23-byte reduced alphabet".into(), true);
+    cases.extend(structured_strings());
+    let random = if report.is_thorough() { 1_500_000 } else { 60_000 };
+    for _ in 0..random {
+        cases.push(random_string(&mut rng));
+    }
+    let outcomes = run_str_cases(&cases, report.is_thorough());
+    evaluate_str(report, &cases, &outcomes, &mut rng);
+
+    // generators on a subset in the quick tier (all of them in thorough, above)
+    if !report.is_thorough() {
+        let subset: Vec<StrCase> = cases
+            .iter()
+            .enumerate()
+            .filter(|(i, c)| c.family != "exhaustive<=2" && c.family != "reduced-alphabet-3" || i % 16 == 0)
+            .map(|(_, c)| c.clone())
+            .take(60_000)
+            .collect();
+        let o = run_str_cases(&subset, true);
+        for (c, o) in subset.iter().zip(&o) {
+            for (name, out) in &o.gen_diff {
+                report.violation(Violation {
+                    kind: "correspondence".into(),
+                    check: format!("generator-{}", name),
+                    what: format!("{} generator writes {:?}, not write_string's output", name, out),
+                    input: str_input(c),
+                    failing_input_found: false,
+                });
+            }
+        }
+        report.count("generator_agreement_checked", subset.len() as u64);
+    }
+
+    // ---- interpolated segments
+    let mut seg_cases = exhaustive_small();
+    for c in seg_cases.iter_mut() {
+        c.family = "segment-exhaustive<=2";
+    }
+    report.exhaustive.insert("byte strings of length <= 2 (interpolated segment)".into(), true);
+    for c in reduced_three() {
+        seg_cases.push(StrCase { family: "segment-reduced-3", v: c.v });
+    }
+    let seg_random = if report.is_thorough() { 300_000 } else { 20_000 };
+    for _ in 0..seg_random {
+        let mut c = random_string(&mut rng);
+        c.family = "segment-random";
+        seg_cases.push(c);
+    }
+    let seg_out = run_seg_cases(&seg_cases);
+    evaluate_seg(report, &seg_cases, &seg_out);
+
+    // ---- neighbouring tokens
+    let mut neighbour_values: Vec<Vec<u8>> = structured_strings()
+        .into_iter()
+        .filter(|c| c.family == "long-bracket-candidates" || c.family == "quotes-backslashes")
+        .map(|c| c.v)
+        .collect();
+    for v in [&b""[..], b"a", b"1", b".", b"..", b"[", b"]", b"[[", b"-", b"--", b"\n", b"\xff9"] {
+        neighbour_values.push(v.to_vec());
+    }
+    let extra = if report.is_thorough() { 3000 } else { 300 };
+    for _ in 0..extra {
+        neighbour_values.push(random_string(&mut rng).v);
+    }
+    if !report.is_thorough() {
+        neighbour_values.truncate(900);
+    }
+    check_neighbours(report, &neighbour_values);
+
+    numbers(report, &mut rng);
+}
+
+// ------------------------------------------------------------------------------------------
+// numbers
+// ------------------------------------------------------------------------------------------
+
+#[derive(Clone, Debug)]
+struct NumCase {
+    family: &'static str,
+    lit: NumberExpression,
+}
+
+fn ul(b: bool) -> &'static str {
+    if b { "u" } else { "l" }
+}
+
+fn lit_wire(n: &NumberExpression) -> String {
+    match n {
+        NumberExpression::Decimal(d) => match (d.get_exponent(), d.is_uppercase()) {
+            (Some(e), Some(u)) => format!("d:{}:{}:{}", f64_wire(d.compute_value()), e, ul(u)),
+            _ => format!("d:{}:n:l", f64_wire(d.compute_value())),
+        },
+        NumberExpression::Hex(h) => match (h.get_exponent(), h.is_exponent_uppercase()) {
+            (Some(e), Some(u)) => {
+                format!("h:{}:{}:{}:{}", h.get_raw_integer(), e, ul(u), ul(h.is_x_uppercase()))
+            }
+            _ => format!("h:{}:n:l:{}", h.get_raw_integer(), ul(h.is_x_uppercase())),
+        },
+        NumberExpression::Binary(b) => format!("b:{}:{}", b.get_raw_value(), ul(b.is_b_uppercase())),
+    }
+}
+
+fn same_double(a: f64, b: f64) -> bool {
+    if a.is_nan() || b.is_nan() {
+        a.is_nan() && b.is_nan()
+    } else {
+        a.to_bits() == b.to_bits()
+    }
+}
+
+fn decimal_cases(x: f64, family: &'static str, out: &mut Vec<NumCase>, exps: &[i64]) {
+    out.push(NumCase { family, lit: DecimalNumber::new(x).into() });
+    for &e in exps {
+        out.push(NumCase { family, lit: DecimalNumber::new(x).with_exponent(e, e % 2 == 0).into() });
+    }
+}
+
+fn boundary_doubles(rng: &mut Rng, thorough: bool) -> Vec<(f64, &'static str)> {
+    let mut v: Vec<(f64, &'static str)> = Vec::new();
+    for bits in [0u64, 1 << 63] {
+        v.push((f64::from_bits(bits), "zero"));
+    }
+    v.push((f64::INFINITY, "inf"));
+    v.push((f64::NEG_INFINITY, "inf"));
+    for bits in [0x7ff8000000000000u64, 0xfff8000000000000, 0x7ff0000000000001, 0x7fffffffffffffff] {
+        v.push((f64::from_bits(bits), "nan"));
+    }
+    // subnormals and the normal boundary
+    for bits in [1u64, 2, 3, 4, 5, 9, 10, 0xfffff, 0x8000000000000 - 1, 0x8000000000000, 0xfffffffffffff,
+        0x10000000000000, 0x10000000000001, 0x1fffffffffffff, 0x20000000000000] {
+        v.push((f64::from_bits(bits), "subnormal-boundary"));
+        v.push((-f64::from_bits(bits), "subnormal-boundary"));
+    }
+    for _ in 0..(if thorough { 3000 } else { 200 }) {
+        v.push((f64::from_bits(rng.next_u64() & 0xfffffffffffff), "subnormal-random"));
+    }
+    // powers of two and neighbours
+    for k in -1074..=1023i32 {
+        let p = 2f64.powi(k);
+        let b = p.to_bits();
+        v.push((p, "power-of-two"));
+        if !thorough && k % 7 != 0 {
+            continue;
+        }
+        if b > 1 {
+            v.push((f64::from_bits(b - 1), "power-of-two-neighbour"));
+        }
+        v.push((f64::from_bits(b + 1), "power-of-two-neighbour"));
+    }
+    // powers of ten and neighbours
+    for k in -324..=308i32 {
+        let p: f64 = format!("1e{}", k).parse().unwrap();
+        let b = p.to_bits();
+        v.push((p, "power-of-ten"));
+        if b > 1 {
+            v.push((f64::from_bits(b - 1), "power-of-ten-neighbour"));
+        }
+        v.push((f64::from_bits(b + 1), "power-of-ten-neighbour"));
+        for m in [2.0, 5.0, 9.0, 1.5, 12.0, 999.0, 1001.0] {
+            if thorough || k % 5 == 0 {
+                v.push((p * m, "power-of-ten-multiple"));
+            }
+        }
+    }
+    // 2^53 and integer-conversion neighbourhoods
+    for base in [52u32, 53, 54, 63, 64, 31, 32] {
+        let p = 2f64.powi(base as i32);
+        let b = p.to_bits();
+        for d in 0..6u64 {
+            v.push((f64::from_bits(b - d), "2^53-neighbourhood"));
+            v.push((f64::from_bits(b + d), "2^53-neighbourhood"));
+            v.push((-f64::from_bits(b + d), "2^53-neighbourhood"));
+        }
+    }
+    // shortest-representation hard cases
+    for s in [
+        "5e-324", "1.7976931348623157e308", "2.2250738585072014e-308", "2.2250738585072011e-308",
+        "2.225073858507201e-308", "4.9406564584124654e-324", "9007199254740993", "0.1", "0.2", "0.3",
+        "0.30000000000000004", "1e23", "9.999999999999999e22", "1e22", "1e21", "1e-7", "9.5367431640625e-7",
+        "123456789012345680", "1.2345678901234567e123", "8.41e21", "2.0e-3", "3.141592653589793",
+        "2.718281828459045", "0.000001", "0.0000001", "1e15", "1e16", "1e17", "999", "999.5", "1000",
+        "1100", "1234500", "100000", "123456", "0.09999999999999999", "0.1000000000000000055",
+        "4.35", "4.350000000000001", "5.0e-1", "1.0000000000000002", "0.9999999999999999",
+        "72057594037927928", "72057594037927936", "7.2057594037927945e16", "1.8446744073709552e19",
+        "3.5844466002796428e298", "1.7800590868057611e-307", "2.9802322387695312e-8",
+        "5.764607523034235e39", "1.152921504606847e40", "2.305843009213694e40", "4.4501477170144023e-308",
+        "6.631236871469758e-316", "3.237883913302901e-319", "5.687589e-320", "1.0e-320", "9.88e-324",
+    ] {
+        let x: f64 = s.parse().unwrap();
+        v.push((x, "shortest-hard-case"));
+        v.push((-x, "shortest-hard-case"));
+    }
+    for i in 0..1200u32 {
+        v.push((i as f64, "small-integer"));
+    }
+    for i in [1u32, 3, 7, 15, 25, 33, 99, 101, 250, 999, 1001] {
+        v.push((i as f64 / 8.0, "small-fraction"));
+        v.push((i as f64 / 10.0, "small-fraction"));
+        v.push((i as f64 / 1000.0, "small-fraction"));
+        v.push((i as f64 * 100.0, "round-hundreds"));
+        v.push((i as f64 * 1e5, "round-hundreds"));
+    }
+    for _ in 0..(if thorough { 400_000 } else { 20_000 }) {
+        let bits = rng.next_u64();
+        let x = f64::from_bits(bits);
+        if x.is_finite() {
+            v.push((x, "random-bits"));
+        }
+    }
+    for _ in 0..(if thorough { 100_000 } else { 5_000 }) {
+        // random decimal with few digits: short shortest representations
+        let digits = rng.below(100_000) as f64;
+        let e = rng.range(-30, 30) as i32;
+        let x: f64 = format!("{}e{}", digits, e).parse().unwrap();
+        v.push((x, "random-short-decimal"));
+    }
+    v
+}
+
+struct NumOutcome {
+    real: Result<Vec<u8>, String>,
+    reparsed_same: Option<bool>,
+    model: String,
+    value: String,
+}
+
+fn run_num_cases(cases: &[NumCase]) -> Vec<NumOutcome> {
+    par_chunks(cases, |model, chunk| {
+        let reals: Vec<Result<Vec<u8>, String>> = chunk
+            .iter()
+            .map(|c| guarded(|| hooks::write_number(&c.lit).into_bytes()))
+            .collect();
+        let lines: Vec<String> = chunk
+            .iter()
+            .zip(&reals)
+            .map(|(c, r)| format!("c13.num {} {}", lit_wire(&c.lit), hex(r.as_deref().unwrap_or(&[]))))
+            .collect();
+        let answers = model.ask_batch(&lines);
+        chunk
+            .iter()
+            .zip(reals)
+            .zip(answers)
+            .map(|((c, real), answer)| {
+                let parts: Vec<&str> = answer.split(' ').collect();
+                let get = |i: usize| parts.get(i).copied().unwrap_or("?").to_owned();
+                // hex / binary: darklua must read its own output back as the same node
+                let reparsed_same = match (&c.lit, &real) {
+                    (NumberExpression::Decimal(_), _) | (_, Err(_)) => None,
+                    (_, Ok(r)) => Some(
+                        guarded(|| String::from_utf8_lossy(r).parse::<NumberExpression>())
+                            .ok()
+                            .and_then(|x| x.ok())
+                            .map(|x| x == c.lit)
+                            .unwrap_or(false),
+                    ),
+                };
+                NumOutcome { real, reparsed_same, model: get(0), value: get(1) }
+            })
+            .collect()
+    })
+}
+
+fn lit_value(n: &NumberExpression) -> Option<f64> {
+    match n {
+        NumberExpression::Decimal(d) => Some(d.compute_value()),
+        NumberExpression::Hex(h) if h.get_exponent().is_none() => Some(h.get_raw_integer() as f64),
+        NumberExpression::Hex(_) => None, // `0x…p…` is not a Luau literal
+        NumberExpression::Binary(b) => Some(b.get_raw_value() as f64),
+    }
+}
+
+fn evaluate_num(report: &mut Report, cases: &[NumCase], outcomes: &[NumOutcome]) {
+    for (c, o) in cases.iter().zip(outcomes) {
+        let wire = lit_wire(&c.lit);
+        let input = json!({"kind": "number", "family": c.family, "literal": wire});
+        report.hist("number-family", c.family);
+        let real = match &o.real {
+            Ok(r) => r,
+            Err(e) => {
+                report.case(Some(("num", &wire)));
+                report.violation(Violation {
+                    kind: "oracle".into(),
+                    check: "write_number-panics".into(),
+                    what: format!("write_number panicked: {}", e),
+                    input,
+                    failing_input_found: true,
+                });
+                continue;
+            }
+        };
+        let text = String::from_utf8_lossy(real).into_owned();
+        let plain_integer = text.bytes().all(|b| b.is_ascii_digit());
+        report.case(if plain_integer { None } else { Some(("num", &wire)) });
+        let shape = if text.starts_with('(') {
+            "(a/b)"
+        } else if text.contains(['e', 'E']) && !text.starts_with("0x") && !text.starts_with("0X") {
+            "exponent"
+        } else if text.starts_with("0x") || text.starts_with("0X") {
+            "hex"
+        } else if text.starts_with("0b") || text.starts_with("0B") {
+            "binary"
+        } else if text.contains('.') {
+            "fraction"
+        } else {
+            "integer"
+        };
+        report.hist("number-written-shape", shape);
+        let mut oracle_failed = false;
+        match lit_value(&c.lit) {
+            Some(x) => {
+                let got = o.value.strip_prefix("some:").and_then(wire_f64);
+                if !got.map(|g| same_double(g, x)).unwrap_or(false) {
+                    oracle_failed = true;
+                    report.violation(Violation {
+                        kind: "oracle".into(),
+                        check: "number-roundtrip".into(),
+                        what: format!(
+                            "write_number gives {:?}, which denotes {} instead of {} ({})",
+                            text, o.value, f64_wire(x), x
+                        ),
+                        input: input.clone(),
+                        failing_input_found: true,
+                    });
+                }
+            }
+            None => report.hist("number-oracle", "hex-float(not a Luau literal; self-reparse only)"),
+        }
+        if o.reparsed_same == Some(false) {
+            oracle_failed = true;
+            report.violation(Violation {
+                kind: "oracle".into(),
+                check: "number-self-reparse".into(),
+                what: format!("darklua does not read its own {:?} back as the same number node", text),
+                input: input.clone(),
+                failing_input_found: true,
+            });
+        }
+        if o.model != hex(real) && !oracle_failed {
+            report.violation(Violation {
+                kind: "correspondence".into(),
+                check: "write_number".into(),
+                what: format!(
+                    "model {:?} != real {:?}",
+                    unhex(&o.model).map(|b| String::from_utf8_lossy(&b).into_owned()),
+                    text
+                ),
+                input,
+                failing_input_found: false,
+            });
+        }
+        if shape == "exponent" && report.samples.len() < 10 {
+            report.sample(json!({"literal": wire, "written": text, "denotes": o.value}));
+        }
+    }
+}
+
+/// `Expression::from(f64)` through the three generators: the text must denote the double
+fn check_from_f64(report: &mut Report, doubles: &[(f64, &'static str)]) {
+    struct Out {
+        texts: Vec<(String, Result<String, String>)>,
+        inner: Option<(bool, NumberExpression)>,
+    }
+    let outs: Vec<(Out, Vec<String>)> = par_chunks(doubles, |model, chunk| {
+        let mut res = Vec::new();
+        for (x, _) in chunk {
+            let expr = guarded(|| Expression::from(*x));
+            let (texts, inner) = match &expr {
+                Ok(e) => {
+                    let inner = match e {
+                        Expression::Number(n) => Some((false, n.clone())),
+                        Expression::Unary(u) => match u.get_expression() {
+                            Expression::Number(n) => Some((true, n.clone())),
+                            _ => None,
+                        },
+                        _ => None,
+                    };
+                    (generator_outputs(e), inner)
+                }
+                Err(e) => (vec![("from".to_owned(), Err(e.clone()))], None),
+            };
+            let mut lines = Vec::new();
+            for (_, t) in &texts {
+                let stripped: String = t.as_deref().unwrap_or("").chars().filter(|c| *c != ' ' && *c != '\n').collect();
+                lines.push(format!("c13.nval {}", hex(stripped.as_bytes())));
+            }
+            if let Some((_, n)) = &inner {
+                lines.push(format!("c13.wnum {}", lit_wire(n)));
+            }
+            let answers = model.ask_batch(&lines);
+            res.push((Out { texts, inner }, answers));
+        }
+        res
+    });
+    for ((x, family), (out, answers)) in doubles.iter().zip(outs) {
+        report.hist("from-f64-family", family);
+        for (i, (gname, text)) in out.texts.iter().enumerate() {
+            report.case(Some(("from", gname.as_str(), x.to_bits())));
+            let input = json!({"kind": "from-f64", "generator": gname, "double": f64_wire(*x)});
+            let text = match text {
+                Ok(t) => t,
+                Err(e) => {
+                    report.violation(Violation {
+                        kind: "oracle".into(),
+                        check: "from-f64-panics".into(),
+                        what: format!("Expression::from({}) / generator panicked: {}", x, e),
+                        input,
+                        failing_input_found: true,
+                    });
+                    continue;
+                }
+            };
+            let got = answers[i].strip_prefix("some:").and_then(wire_f64);
+            if !got.map(|g| same_double(g, *x)).unwrap_or(false) {
+                report.violation(Violation {
+                    kind: "oracle".into(),
+                    check: "from-f64-roundtrip".into(),
+                    what: format!("{} writes Expression::from({:e}) as {:?}, which denotes {}", gname, x, text, answers[i]),
+                    input,
+                    failing_input_found: true,
+                });
+                continue;
+            }
+            if let Some((negated, _)) = &out.inner {
+                let model_text = answers
+                    .last()
+                    .and_then(|m| unhex(m))
+                    .map(|b| format!("{}{}", if *negated { "-" } else { "" }, String::from_utf8_lossy(&b)));
+                let stripped: String = text.chars().filter(|c| *c != ' ' && *c != '\n').collect();
+                if model_text.as_deref() != Some(stripped.as_str()) {
+                    report.violation(Violation {
+                        kind: "correspondence".into(),
+                        check: "from-f64-text".into(),
+                        what: format!("{} writes {:?}, model {:?}", gname, text, model_text),
+                        input,
+                        failing_input_found: false,
+                    });
+                }
+            }
+        }
+    }
+}
+
+// ---- parsing ------------------------------------------------------------------------------
+
+fn sprinkle_underscores(s: &str, rng: &mut Rng) -> String {
+    let mut out = String::new();
+    for (i, ch) in s.chars().enumerate() {
+        out.push(ch);
+        if i + 1 < s.len() + 1 && rng.chance(1, 5) {
+            out.push('_');
+            if rng.chance(1, 6) {
+                out.push('_');
+            }
+        }
+    }
+    out
+}
+
+fn literal_texts(rng: &mut Rng, thorough: bool) -> Vec<(String, &'static str)> {
+    let mut v: Vec<(String, &'static str)> = Vec::new();
+    for s in [
+        "0", "1", "123", "123_456", "123.24", "123.245_6", "0._24", "123.", ".123", "1e10", "1e_10",
+        "123e101", "123e+121", "123e-456", "123E4", "123E-456", "10.12e8", "10_0.12_e_8",
+        "4.6982573308436185e159", "10.e8", "0x12", "0_x12", "0_x_12", "0x12_13", "0X12", "0_X13", "0x12a",
+        "0x12A", "0x1bF2A", "0x12p4", "0xABP3", "0b0", "0_b1", "0b1010_1100", "0B0", "0_B1", "", "1e", "1E",
+        "._1", "1e-", "1E-", "1e_-1", "1e_+1", "1E_-1", "1E_+1", "0x1p", "0x1p-3", "0x1P", "0x1p1Z", "0x1P1Z",
+        "0x1P-3", "0b190", "0B190", "1_e+5", "1e-_5", "1__2", "1._", "1_._5", "5_.2", "1e5e6", "1.2.3", "1..2",
+        "0x", "0b", "0x_", "0b_", "0xg", "0b2", "00x1", "0x1e5", "0xe", "0xE1", "0b1e1", "0e0", "0e5", "00", "007",
+        "0.0", ".0", "0.", "1e+0", "1e-0", "1e0000005", "9007199254740993", "9007199254740992.5",
+        "9007199254740992.500000000000000000000000000001", "18446744073709551615", "18446744073709551616",
+        "0xffffffffffffffff", "0x10000000000000000", "0xfffffffffffff801", "0xfffffffffffffbff",
+        "0xfffffffffffffc00", "0x20000000000001", "0x20000000000002", "0x20000000000003",
+        "0b1111111111111111111111111111111111111111111111111111111111111111",
+        "0b10000000000000000000000000000000000000000000000000000000000000000",
+        "1e309", "1.7976931348623159e308", "1.797693134862315807e308", "4.9e-324", "2.4703282292062327e-324",
+        "2.4703282292062328e-324", "2.47032822920623272e-324", "1e-400", "1e400", "1e99999999999999999999",
+        "1e-99999999999999999999", "1e9223372036854775807", "1e9223372036854775808", "0e99999999999999999999",
+        "123456789012345678901234567890", "0.000000000000000000000000000001", "1e5_", "1_", "1.e5", ".5e5",
+        "5.e", "0x1.8p1", "0x.8", "0xp1", "0x1p+1", "0x1p4294967295", "0x1p4294967296", "0x1_0p1", "0x10p60",
+        "inf", "nan", "infinity", "NaN", "+1", "-1", "1f", "1d", "0b101b", "0x12h", " 1", "1 ", "1e 5", "١",
+        "0X_A_b", "0xA_P1", "0xe+1", "1E5e", "1ee5", "e5", ".e5", "._", ".", "_1", "1_e5", "1e5_0", "1e+_5",
+    ] {
+        v.push((s.to_owned(), "curated"));
+    }
+    let n = if thorough { 300_000 } else { 25_000 };
+    for _ in 0..n {
+        let int: String = (0..rng.below(6)).map(|_| (b'0' + rng.below(10) as u8) as char).collect();
+        let frac: String = (0..rng.below(6)).map(|_| (b'0' + rng.below(10) as u8) as char).collect();
+        let kind = rng.below(10);
+        let mut s = match kind {
+            0 | 1 => {
+                // hex
+                let digits: String = (0..1 + rng.below(16))
+                    .map(|_| *rng.pick(b"0123456789abcdefABCDEF") as char)
+                    .collect();
+                format!("0{}{}", rng.pick(&["x", "X"]), digits)
+            }
+            2 => {
+                let digits: String = (0..1 + rng.below(66)).map(|_| *rng.pick(b"01") as char).collect();
+                format!("0{}{}", rng.pick(&["b", "B"]), digits)
+            }
+            3 => int.clone(),
+            4 => format!("{}.{}", int, frac),
+            5 | 6 => {
+                let e: String = (0..1 + rng.below(3)).map(|_| (b'0' + rng.below(10) as u8) as char).collect();
+                format!("{}.{}{}{}{}", int, frac, rng.pick(&["e", "E"]), rng.pick(&["", "+", "-"]), e)
+            }
+            7 => {
+                let e: String = (0..1 + rng.below(3)).map(|_| (b'0' + rng.below(10) as u8) as char).collect();
+                format!("{}{}{}{}", if int.is_empty() { "7" } else { &int }, rng.pick(&["e", "E"]), rng.pick(&["", "+", "-"]), e)
+            }
+            8 => {
+                // long digit strings around halfway points
+                let base = (1u64 << 53) + rng.below(64) as u64;
+                format!("{}.{}{}", base, rng.pick(&["5", "49999999999999999999", "50000000000000000001", "5000"]), frac)
+            }
+            _ => {
+                // soup of token characters
+                (0..1 + rng.below(8)).map(|_| *rng.pick(b"0123456789._eExXbBpP+-aF") as char).collect()
+            }
+        };
+        if rng.chance(1, 2) {
+            s = sprinkle_underscores(&s, rng);
+        }
+        v.push((s, match kind { 0 | 1 => "random-hex", 2 => "random-binary", 9 => "random-soup", 8 => "random-halfway", _ => "random-decimal" }));
+    }
+    v
+}
+
+fn check_parsing(report: &mut Report, texts: &[(String, &'static str)]) {
+    let parser = Parser::default();
+    struct P {
+        real: Result<Result<NumberExpression, String>, String>,
+        via_parser: Option<Option<NumberExpression>>,
+        answer: String,
+    }
+    let outs: Vec<P> = par_chunks(texts, |model, chunk| {
+        let lines: Vec<String> = chunk.iter().map(|(t, _)| format!("c13.pnum {}", hex(t.as_bytes()))).collect();
+        let answers = model.ask_batch(&lines);
+        chunk
+            .iter()
+            .zip(answers)
+            .map(|((t, _), answer)| {
+                let real = guarded(|| t.parse::<NumberExpression>().map_err(|e| format!("{:?}", e)));
+                P { real, via_parser: None, answer }
+            })
+            .collect()
+    });
+    let mut outs = outs;
+    // the full parser on `return <literal>` for token-shaped texts (sequential: it is cheap)
+    for ((t, _), o) in texts.iter().zip(outs.iter_mut()) {
+        let token_shaped = o.answer.split(' ').nth(1).map(|d| d != "none").unwrap_or(false);
+        if token_shaped {
+            let code = format!("return {}", t);
+            let parsed = guarded(|| parser.parse(&code)).ok().and_then(|r| r.ok());
+            o.via_parser = Some(parsed.and_then(|b| match b.get_last_statement() {
+                Some(darklua_core::nodes::LastStatement::Return(r)) => match r.iter_expressions().next() {
+                    Some(Expression::Number(n)) => Some(n.clone()),
+                    _ => None,
+                },
+                _ => None,
+            }));
+        }
+    }
+    for ((t, family), o) in texts.iter().zip(&outs) {
+        let parts: Vec<&str> = o.answer.split(' ').collect();
+        let (model, desc, refval) = (parts.first().copied().unwrap_or("?"), parts.get(1).copied().unwrap_or("?"), parts.get(2).copied().unwrap_or("?"));
+        let input = json!({"kind": "number-text", "family": family, "text": t, "text_hex": hex(t.as_bytes())});
+        report.case(Some(("parse", t)));
+        report.hist("number-text-family", family);
+        let real = match &o.real {
+            Ok(r) => r,
+            Err(e) => {
+                report.violation(Violation {
+                    kind: "oracle".into(),
+                    check: "from_str-panics".into(),
+                    what: format!("NumberExpression::from_str({:?}) panicked: {}", t, e),
+                    input,
+                    failing_input_found: true,
+                });
+                continue;
+            }
+        };
+        let real_wire = match real {
+            Ok(n) => format!("ok:{}", lit_wire(n)),
+            Err(e) => format!("err:{}", e),
+        };
+        let refbits = refval.strip_prefix("some:").and_then(wire_f64);
+        let mut oracle_failed = false;
+        match (real, refbits) {
+            (Ok(n), Some(want)) => {
+                report.hist("number-parse", "accepted-by-both");
+                let got = n.compute_value();
+                if !same_double(got, want) {
+                    oracle_failed = true;
+                    report.violation(Violation {
+                        kind: "oracle".into(),
+                        check: "number-parse-value".into(),
+                        what: format!("{:?} parses to {} ({}), Luau gives {}", t, f64_wire(got), got, refval),
+                        input: input.clone(),
+                        failing_input_found: true,
+                    });
+                }
+            }
+            (Ok(_), None) => report.hist(
+                "number-parse",
+                if desc == "none" && t.to_ascii_lowercase().contains('p') {
+                    "accepted-by-darklua-only(hex float, Lua 5.2 syntax)"
+                } else {
+                    "accepted-by-darklua-only(not a Luau number token)"
+                },
+            ),
+            (Err(_), Some(_)) => {
+                report.hist("number-parse", "rejected-by-darklua-only(valid Luau)");
+                if report.notes.len() < 12 {
+                    report.notes.push(format!("darklua rejects the valid Luau literal {:?} ({})", t, real_wire));
+                }
+            }
+            (Err(_), None) => report.hist("number-parse", "rejected-by-both"),
+        }
+        if let (Some(via), Ok(n)) = (&o.via_parser, real) {
+            // the parser must agree with FromStr on the value of token-shaped literals; a literal
+            // the parser's own lexer refuses is a robustness matter, not a wrong value
+            match via {
+                None => {
+                    report.hist("number-parse", "Parser::parse refuses a literal from_str accepts");
+                    if report.notes.len() < 20 {
+                        report.notes.push(format!("Parser::parse refuses `return {}` (valid Luau; from_str accepts it)", t));
+                    }
+                }
+                Some(p) if !same_double(p.compute_value(), n.compute_value()) && !oracle_failed => {
+                    report.violation(Violation {
+                        kind: "oracle".into(),
+                        check: "parser-vs-from_str".into(),
+                        what: format!("Parser::parse(\"return {}\") gives {}, from_str gives {}", t, lit_wire(p), real_wire),
+                        input: input.clone(),
+                        failing_input_found: true,
+                    });
+                    oracle_failed = true;
+                }
+                Some(_) => {}
+            }
+        }
+        if model != real_wire && !oracle_failed {
+            report.violation(Violation {
+                kind: "correspondence".into(),
+                check: "from_str".into(),
+                what: format!("{:?}: model {} != real {}", t, model, real_wire),
+                input,
+                failing_input_found: false,
+            });
+        }
+    }
+}
+
+fn numbers(report: &mut Report, rng: &mut Rng) {
+    let thorough = report.is_thorough();
+    let doubles = boundary_doubles(rng, thorough);
+    let mut cases: Vec<NumCase> = Vec::new();
+    for (x, family) in &doubles {
+        let mut exps: Vec<i64> = Vec::new();
+        if x.is_finite() && *x != 0.0 {
+            let l = x.abs().log10().floor() as i64;
+            exps.extend([l, l - 1, l + 1]);
+        }
+        if *family != "random-bits" && *family != "small-integer" {
+            exps.extend([0, 1, -1, 5, -5, 22, 23, -23, 308, -308, 309, -324, -400, 400, 2147483647, -2147483648, 2147483648, -2147483649, i64::MAX, i64::MIN]);
+        } else if rng.chance(1, 4) {
+            exps.push(rng.range(-330, 330));
+        }
+        decimal_cases(*x, family, &mut cases, &exps);
+    }
+    // hex and binary nodes
+    let mut ints: Vec<u64> = vec![0, 1, 9, 10, 15, 16, 255, 256, 0xdead_beef, u32::MAX as u64, 1 << 52, (1 << 53) - 1, 1 << 53, (1 << 53) + 1, (1 << 53) + 2, u64::MAX - 1, u64::MAX, 0xfffffffffffff800, 0xfffffffffffffbff, 0xfffffffffffffc00];
+    for _ in 0..(if thorough { 20_000 } else { 2_000 }) {
+        ints.push(rng.next_u64() >> rng.below(64));
+    }
+    for &n in &ints {
+        for up in [false, true] {
+            cases.push(NumCase { family: "hex", lit: darklua_core::nodes::HexNumber::new(n, up).into() });
+            cases.push(NumCase { family: "binary", lit: darklua_core::nodes::BinaryNumber::new(n, up).into() });
+        }
+        let e = *rng.pick(&[0u32, 1, 4, 10, 63, 64, 1000, u32::MAX]);
+        cases.push(NumCase { family: "hex-exponent", lit: darklua_core::nodes::HexNumber::new(n, false).with_exponent(e, rng.chance(1, 2)).into() });
+    }
+    let outcomes = run_num_cases(&cases);
+    evaluate_num(report, &cases, &outcomes);
+
+    check_from_f64(report, &doubles);
+
+    let texts = literal_texts(rng, thorough);
+    check_parsing(report, &texts);
 }
